@@ -386,7 +386,7 @@ Qed.
 Lemma last_opt_map : forall {A B} (g : A -> B) l, last_opt (map g l) = option_map g (last_opt l).
 Proof. intros A B g l. unfold last_opt. rewrite <- map_rev. destruct (rev l); reflexivity. Qed.
 
-(* the top-level `local` declarations of a file, and what the outline shows of the last one of each name *)
+(* the top-level `local` declarations of a file *)
 Definition top_locals (b : block) : list (bytes * vsig) := flat_map decl_locals (block_stats b).
 
 Lemma local_sigs_param : forall nms ls es d, In d (local_sigs nms ls es) -> snd (fst (snd d)) = false.
@@ -410,29 +410,32 @@ Proof.
   intros n b st H. unfold analyse in H. destruct (all_sig n) as [_ [_ [_ Hb]]]. apply Hb in H. exact H.
 Qed.
 
+(* every top-level `local` declaration has its own entry (repaired code: one entry per declaration) *)
 Theorem outline_top_local : forall fx n b st nm l ofl,
+    fx_alldecl fx = true ->
     analyse n b = Ok st ->
-    last_opt (decls_named nm (top_locals b)) = Some (l, false, ofl) ->
+    In (l, false, ofl) (decls_named nm (top_locals b)) ->
     exists s, In s (find_all_symbol fx (finalize st)) /\
-              s_local s = true /\ s_key s = nm /\ s_decl s = l /\ s_fn s = is_some ofl /\
-              (forall fl, ofl = Some fl -> s_loc s = fl).
+              s_local s = true /\ s_undecl s = false /\ s_key s = nm /\ s_decl s = l /\ s_fn s = is_some ofl /\
+              (forall fl, ofl = Some fl -> s_loc s = fn_range fx fl l).
 Proof.
-  intros fx n b st nm l ofl Ha Hlast. pose proof (main_scope_sig _ _ _ Ha) as Hsig.
+  intros fx n b st nm l ofl Hfx Ha Hin. pose proof (main_scope_sig _ _ _ Ha) as Hsig.
   destruct (env st) as [|fr rest] eqn:Ee; [discriminate|]. cbn [esig map] in Hsig. injection Hsig as Hfr Hrest.
   assert (Hget : got (assoc_get nm (fsig fr)) = decls_named nm (top_locals b)).
   { rewrite Hfr, sig_adds_get. reflexivity. }
   unfold fsig in Hget. rewrite (assoc_get_map (map vsig_of)) in Hget.
   destruct (assoc_get nm (s_vars fr)) as [vs|] eqn:Eg; cbn [option_map got] in Hget;
-    [|rewrite <- Hget in Hlast; discriminate].
-  rewrite <- Hget, last_opt_map in Hlast. destruct (last_opt vs) as [v|] eqn:Ev; [|discriminate].
-  cbn [option_map] in Hlast. injection Hlast as Hl Hp Hf.
-  exists (var_sym fx true nm v). split; [|rewrite var_sym_local, var_sym_key, var_sym_decl, var_sym_fn; repeat split; auto].
+    [|rewrite <- Hget in Hin; destruct Hin].
+  rewrite <- Hget in Hin. apply in_map_iff in Hin. destruct Hin as [v [Hv Hvin]].
+  unfold vsig_of in Hv. injection Hv as Hl Hp Hf.
+  exists (var_sym fx true nm v).
+  split; [|rewrite var_sym_local, var_sym_undecl, var_sym_key, var_sym_decl, var_sym_fn; repeat split; auto].
   - unfold find_all_symbol. apply in_or_app. left. rewrite finalize_main_scope. unfold main_scope. rewrite Ee.
     destruct fr as [f vars subs]. rewrite find_all_local_unfold. apply in_or_app. left.
     apply in_map_iff. exists (nm, v). split; [reflexivity|]. unfold listed_locals. apply in_flat_map.
     exists (nm, vs). split; [apply assoc_get_key; exact Eg|]. cbn [fst snd].
-    change (last_var vs) with (last_opt vs). rewrite Ev, Hp. left; reflexivity.
+    apply in_map. unfold listed_of. rewrite Hfx. apply filter_In. split; [exact Hvin|]. rewrite Hp. reflexivity.
   - rewrite <- Hf. destruct (v_func v); reflexivity.
   - intros fl Hfl. subst ofl. destruct (v_func v) as [fi|] eqn:Efn; [|discriminate].
-    cbn [option_map] in Hfl. injection Hfl as Hfl. rewrite (var_sym_fn_loc fx true nm v fi Efn). exact Hfl.
+    cbn [option_map] in Hfl. injection Hfl as Hfl. rewrite (var_sym_fn_loc fx true nm v fi Efn), Hfl, Hl. reflexivity.
 Qed.
